@@ -589,7 +589,7 @@ func (rd *reader) readOptional(s *cryptobyte.String, it Item, itemExp, rest []by
 	case "optbool":
 		want := it.I != 0
 		v := !want
-		ok := s.ReadOptionalASN1Boolean(&v, !want)
+		ok := s.ReadOptionalASN1Boolean(&v, it.D) // the default is independent of the written value
 		if !ok || v != want || !bytes.Equal(*s, rest) {
 			const key = "C21:optional-boolean-present"
 			if r.Known(key) {
